@@ -187,6 +187,13 @@ theorem digraph_edges {D : DiG} {succ : Bool} {B : BipG} (h : digraphAux D succ 
     (∀ a b, (a, b) ∈ B.edgeset ↔ (if succ then (b, a) else (a, b)) ∈ D.edges) :=
   ⟨⟨hs, (digraphAux_spec h).1⟩, (digraphAux_spec h).2.2.2⟩
 
+/-- patterns of a directed-edge group: as for the auxiliary bipartite graph with `sortby='pred'`;
+with `sortby='succ'` the pattern is read in reverse and the resulting pairs are swapped back -/
+theorem digraph_patterns (B : BipG) (pat : Pattern) :
+    digraphIndices B false pat = bipIndices B pat ∧
+    digraphIndices B true pat = (bipIndices B pat.reverse).map (fun l => l.map (fun e => (e.2, e.1))) :=
+  ⟨digraphIndices_pred B pat, digraphIndices_succ B pat⟩
+
 example : (BipG.ofEdges 2 3 [(2, 1), (1, 3), (2, 2)]).isOk = true := by decide
 
 /-! ## T-C11.4 binary mappings: `(i, b) ↔ start - 1 + i·bits − b` -/
